@@ -373,8 +373,8 @@ struct LoomResult {
 }
 
 /// All outcomes of sequential executions consistent with program order, on
-/// the real cache (used to label loom outcomes as linearizable or not —
-/// informational, see DESIGN C15).
+/// the real cache (loom outcomes must be among them when every operation of
+/// the program is an atomic unit; reported only otherwise — DESIGN 12.4).
 fn sequential_outcomes(p: &Program) -> BTreeSet<String> {
     fn go(
         p: &Program,
@@ -780,8 +780,8 @@ pub fn run(ctx: &Ctx) -> i32 {
     report.assumptions = vec![
         "an insert and a lookup that returns a live record count as uses; a lookup returning nothing is an uncertain use; LRU is violated only when an evicted name was certainly used later than a surviving one".into(),
         "the overflow flag returned by prune is not judged (not part of the statement)".into(),
-        "threads: 3-4 model threads; every cache operation is one critical section, so more threads add no new shape of interleaving (stated, not checked)".into(),
-        "concurrency oracle = structural invariants + count equality + exact final prune; linearizability of outcomes is reported as information only".into(),
+        "threads: 2-4 model threads; every cache operation is one critical section, so more threads add no new shape of interleaving (stated, not checked)".into(),
+        "concurrency oracle = structural invariants + count equality + exact final prune on every schedule; for programs whose operations are atomic units (no multi-record insert_all) the outcome (per-operation results, final contents with expiry in whole seconds, least-recently-used order) must equal that of some sequential order of the operations on the same ticking clock; for the other programs that comparison is reported only".into(),
     ];
     finish(ctx, report)
 }
